@@ -148,8 +148,13 @@ impl<'a> InstanceInformation {
 impl std::hash::Hash for InstanceInformation {
     fn hash<H: std::hash::Hasher>(&self, state: &mut H) {
         self.instance_name.hash(state);
-        self.ip_addresses.iter().for_each(|v| v.hash(state));
-        self.ports.iter().for_each(|v| v.hash(state));
+        let mut ip_addresses: Vec<_> = self.ip_addresses.iter().collect();
+        ip_addresses.sort();
+        ip_addresses.hash(state);
+
+        let mut ports: Vec<_> = self.ports.iter().collect();
+        ports.sort();
+        ports.hash(state);
     }
 }
 
